@@ -294,7 +294,7 @@ def _origin(e, lets, depth=0):
 def r2b_key_path_decor(rep, facts):
     R = rep.rule('C03/R2b', 'placement of key-path whitespace agrees between reader and writers: the parser stores the text around a whole '
                  'dotted key on the leaf decor of the LAST segment and the text around the dots on each segment\'s dotted decor; both key-path '
-                 'printers take the leaf decor from `<path>.last()` and the dotted decor from the segment being printed', floor=5)
+                 'printers take the leaf decor from `<path>.last()` and the dotted decor from the segment being printed', floor=6)
     # reader
     b = facts.body(P + 'key::key')
     lets = _lets(b['body'])
@@ -330,6 +330,22 @@ def r2b_key_path_decor(rep, facts):
                 okp = True
             if 'suffix' in ms and ('last_mut' in ms or 'last' in ms) and 'set_suffix' in sets:
                 oks = True
+    # moved, not copied: the source decor is emptied in the same branch
+    moved = {'prefix': False, 'suffix': False}
+    for n in walk(b['body']):
+        if n.get('k') == 'if' and peel(n['cond']).get('k') == 'letexpr':
+            sets = [x for x in walk(n['then']) if x.get('k') == 'mcall' and x.get('name') in ('set_prefix', 'set_suffix')]
+            for which in ('prefix', 'suffix'):
+                mine = [x for x in sets if x['name'] == 'set_' + which]
+                leaf_side = [x for x in mine if peel(x['args'][0]).get('k') == 'path']
+                cleared = [x for x in mine if peel(x['args'][0]).get('k') == 'lit' and peel(x['args'][0]).get('v') == '']
+                if leaf_side and cleared:
+                    r1, m1 = _origin(cleared[0]['recv'], lets)
+                    if any(y.startswith('dotted_decor') for y in m1):
+                        moved[which] = True
+    rep.check(R, 'key::key|moved-not-copied', moved['prefix'] and moved['suffix'], 'the dotted decor is emptied where its text moves to the leaf decor',
+              f'the whitespace moved to the leaf decor stays on the dotted decor as well ({"prefix" if not moved["prefix"] else "suffix"} not cleared): the stored key of `[ a ]` then prints '
+              f'that text again as a non-last segment of `[a.b]`', facts.loc(b))
     rep.check(R, 'key::key|prefix-from-first', okp, 'leaf prefix = text before the first segment', 'the leaf prefix is no longer taken from the first segment of the dotted key', facts.loc(b))
     rep.check(R, 'key::key|suffix-from-last', oks, 'leaf suffix = text after the last segment', 'the leaf suffix is no longer taken from the last segment of the dotted key', facts.loc(b))
     # writers
@@ -461,6 +477,16 @@ def r4_cr(rep, facts):
                 a0 = peel(n['args'][0]) if n.get('args') else {}
                 if a0.get('k') == 'lit' and (a0.get('v') == 13 or a0.get('v') == '\r'):
                     found.append(d)
+    # ... and every decor writer goes through them (whitespace and comments are the text CR is to be stripped from)
+    for d in ('toml_edit::repr::Decor::prefix_encode', 'toml_edit::repr::Decor::suffix_encode'):
+        if not facts.has_body(d):
+            rep.incomplete(R, d + '|via-encode', 'not found')
+            continue
+        b2 = facts.body(d)
+        via = [c for n in calls_in(b2['body']) for c in callee_all(n) if last_seg(c) in ('encode_with_default', 'encode') and 'RawString' in c]
+        raw_write = any(n.get('k') == 'mcall' and n.get('name') in ('to_str_with_default', 'to_str', 'as_str') for n in walk(b2['body']))
+        rep.check(R, d + '|via-encode', bool(via) and not raw_write, 'writes the stored text through RawString::encode_with_default',
+                  f'`{d}` writes decor text without RawString::encode_with_default: carriage returns of a CRLF document survive in this fragment while every other one is normalised', facts.loc(b2))
     exp = {'toml_edit::raw_string::RawString::encode', 'toml_edit::raw_string::RawString::encode_with_default'}
     for d in sorted(set(found) | exp):
         rep.check(R, f'{d}|cr-writer', d in exp and d in found, "splits on '\\r'",
